@@ -229,5 +229,70 @@ impl DefaultVariables<F> {
 //@end
 }
 
+// ------------------------------------------------------------------ nonsymmetric cones: which membership test guards which step (C15)
+// stand-ins for the cone objects; the membership predicates themselves (powf / ln arithmetic) are uninterpreted
+pub struct PowerCone<T> { pub alpha: T }
+pub struct ExponentialCone<T> { pub _p: Option<T> }
+impl PowerCone<F> {
+    pub uninterp spec fn in_primal(&self, s: Seq<F>) -> bool;
+    pub uninterp spec fn in_dual(&self, z: Seq<F>) -> bool;
+    #[verifier::external_body] pub fn is_primal_feasible(&self, s: &[F]) -> (b: bool) ensures b == self.in_primal(s@) { unimplemented!() }
+    #[verifier::external_body] pub fn is_dual_feasible(&self, z: &[F]) -> (b: bool) ensures b == self.in_dual(z@) { unimplemented!() }
+//@fn file=src/solver/core/cones/powcone.rs in="Cone<T> for PowerCone<T>" name=step_length rules=R1,R2 ret=r
+//@contract
+    requires dz@.len() == 3, ds@.len() == 3, z@.len() == 3, s@.len() == 3,
+    ensures
+        *final(self) == *old(self),
+        // C15: "never leads outside the cone when taken": a nonzero dual step was accepted by the DUAL-cone test on z + a*dz,
+        // a nonzero slack step by the PRIMAL-cone test on s + a*ds (the points the search evaluated, element-wise)
+        r.0 == f_zero() || exists|w: Seq<F>| old(self).in_dual(w) && w.len() == 3 && forall|i: int| 0 <= i < 3 ==> #[trigger] w[i] == f_add(f_mul(f_one(), z@[i]), f_mul(r.0, dz@[i])),
+        r.1 == f_zero() || exists|w: Seq<F>| old(self).in_primal(w) && w.len() == 3 && forall|i: int| 0 <= i < 3 ==> #[trigger] w[i] == f_add(f_mul(f_one(), s@[i]), f_mul(r.1, ds@[i])),
+//@closure 1
+=
+(b: bool) ensures b == self.in_primal(s@)
+//@closure 2
+=
+(b: bool) ensures b == self.in_dual(s@)
+//@after "let alphaz = backtrack_search("
+        let ghost wz = work@;
+//@after "let alphas = backtrack_search("
+        let ghost ws = work@;
+        proof {
+            if alphaz != f_zero() { assert(self.in_dual(wz) && wz.len() == 3); }
+            if alphas != f_zero() { assert(self.in_primal(ws) && ws.len() == 3); }
+        }
+//@end
+}
+impl ExponentialCone<F> {
+    pub uninterp spec fn in_primal(&self, s: Seq<F>) -> bool;
+    pub uninterp spec fn in_dual(&self, z: Seq<F>) -> bool;
+    #[verifier::external_body] pub fn is_primal_feasible(&self, s: &[F]) -> (b: bool) ensures b == self.in_primal(s@) { unimplemented!() }
+    #[verifier::external_body] pub fn is_dual_feasible(&self, z: &[F]) -> (b: bool) ensures b == self.in_dual(z@) { unimplemented!() }
+//@fn file=src/solver/core/cones/expcone.rs in="Cone<T> for ExponentialCone<T>" name=step_length rules=R1,R2 ret=r
+//@contract
+    requires dz@.len() == 3, ds@.len() == 3, z@.len() == 3, s@.len() == 3,
+    ensures
+        *final(self) == *old(self),
+        // C15: "never leads outside the cone when taken": a nonzero dual step was accepted by the DUAL-cone test on z + a*dz,
+        // a nonzero slack step by the PRIMAL-cone test on s + a*ds (the points the search evaluated, element-wise)
+        r.0 == f_zero() || exists|w: Seq<F>| old(self).in_dual(w) && w.len() == 3 && forall|i: int| 0 <= i < 3 ==> #[trigger] w[i] == f_add(f_mul(f_one(), z@[i]), f_mul(r.0, dz@[i])),
+        r.1 == f_zero() || exists|w: Seq<F>| old(self).in_primal(w) && w.len() == 3 && forall|i: int| 0 <= i < 3 ==> #[trigger] w[i] == f_add(f_mul(f_one(), s@[i]), f_mul(r.1, ds@[i])),
+//@closure 1
+=
+(b: bool) ensures b == self.in_primal(s@)
+//@closure 2
+=
+(b: bool) ensures b == self.in_dual(s@)
+//@after "let alphaz = backtrack_search("
+        let ghost wz = work@;
+//@after "let alphas = backtrack_search("
+        let ghost ws = work@;
+        proof {
+            if alphaz != f_zero() { assert(self.in_dual(wz) && wz.len() == 3); }
+            if alphas != f_zero() { assert(self.in_primal(ws) && ws.len() == 3); }
+        }
+//@end
+}
+
 } // verus!
 fn main() {}
